@@ -1,2 +1,341 @@
-def run(ctx, active):
-    pass
+"""Deepening of C09: the generated C as terms of the Coq IR (CGen/Ir.v).
+
+ 1. The helper block parsed from uper_functions.py is translated
+    (translator/ctoir.py) to IR and executed by the Coq interpreter on the call
+    histories of c09_helpers against the hand-written model CGen/Helpers.v
+    (CGen/IrRun.v: enc_agree / dec_agree) - the semantic tie text <-> model,
+    with out-of-bounds / undefined behaviour as distinct outcomes.
+ 2. For a sample of the random modules of Spine A the whole generated source
+    (per-type functions + the helpers it contains) is translated to one IR
+    program and evaluated under vm_compute:
+      * encode of every value = the bytes of the Python codec,
+      * encode into every smaller destination: negative result, no FOob/FUb,
+      * decode of the Python bytes = the expected struct (don't-care for absent
+        members), result = length,
+      * decode of the mutated inputs: no FOob / FUb / FUninit, and the result
+        code equals what the compiled binary returned for the same input (this
+        validates the translator and the IR semantics against gcc/clang).
+"""
+import os
+import re
+
+import common
+from common import C, Raw, to_coq
+import c09_cc
+import c09_driver
+import c09_helpers
+import c09_spine_a as A
+from c09_driver import cparse
+
+import sys
+sys.path.insert(0, os.path.join(common.VERIF, 'translator'))
+import ctoir  # noqa: E402
+
+FUEL = 'Z.to_nat 30000'
+CODES = {1: 'differs from the expectation', 2: 'out-of-bounds access (FOob)', 3: 'undefined behaviour (FUb)',
+         4: 'read of an uninitialised object (FUninit)', 5: 'stuck (ill-formed IR)', 6: 'out of fuel'}
+
+
+def helpers_program():
+    su, funcs, structs, texts = c09_helpers.parse_helpers()
+    u = cparse.parse_unit(structs + '\n'.join(t for _, t in texts))
+    u.defines = {'ENOMEM': 12, 'EINVAL': 22, 'EOUTOFDATA': 500, 'EBADCHOICE': 501, 'EBADLENGTH': 502, 'EBADENUM': 503}
+    return ctoir.Translator([u]).program()
+
+
+def helpers_vs_model(ctx, n, rng=None):
+    rng = rng or ctx.rng
+    try:
+        prog = helpers_program()
+    except cparse.CParseError as e:
+        ctx.violation('the helper block cannot be translated to the IR: %s' % e, dict(kind='helpers-ir', error=str(e)),
+                      no_input=True)
+        return
+    hist = [('E',) + c09_helpers.gen_history(rng, True) for _ in range(n)] + \
+           [('D',) + c09_helpers.gen_history(rng, False) for _ in range(n)]
+    for pre in range(0, 17):
+        for w in (0, 1, 7, 8, 9):
+            hist.append(('E', 2, b'\xaa\xaa', [('n', 0, pre), ('n', (1 << w) - 1 if w else 0, w), ('b', 1)]))
+            hist.append(('D', 2, b'\x5a\xc3', [('n', pre), ('n', w), ('b',)]))
+        hist.append(('E', 3, b'\xff\xff\xff', [('n', 0, pre), ('y', b'\x81\x7e', 2), ('b', 1)]))
+        hist.append(('D', 3, b'\x81\x7e\xc3', [('n', pre), ('y', 2, 2), ('u8',)]))
+        hist.append(('E', 3, b'\xff\xff\xff', [('n', 0, pre), ('i16', -2), ('b', 1)]))
+    ecases = [(list(init), size, [c09_helpers.op_coq(o, True) for o in ops]) for k, size, init, ops in hist if k == 'E']
+    dcases = [(list(init), size, [c09_helpers.op_coq(o, False) for o in ops]) for k, size, init, ops in hist if k == 'D']
+    body = '''
+Open Scope string_scope.
+Definition helpers_ir : program := %s.
+Definition fuel := %s.
+Definition ecases : list (list Z * Z * list eop) := %s.
+Definition dcases : list (list Z * Z * list dop) := %s.
+Eval vm_compute in nonzero (map (enc_agree helpers_ir fuel) ecases).
+Eval vm_compute in nonzero (map (dec_agree helpers_ir fuel) dcases).
+''' % (prog, FUEL, to_coq(ecases), to_coq(dcases))
+    ebad, dbad = ctx.coq_eval('helpers_ir', ['Base.Prelude', 'CGen.Ir', 'CGen.Helpers', 'CGen.IrRun'], body)
+    eh = [h for h in hist if h[0] == 'E']
+    dh = [h for h in hist if h[0] == 'D']
+    ctx.evaluations += len(hist)
+    ctx.count('ir:helper-histories', len(hist))
+    for bad, hs in ((ebad, eh), (dbad, dh)):
+        for i, code in bad:
+            k, size, init, ops = hs[i]
+            c09_cc.limited_violation(
+                ctx, 'helpers-ir',
+                'the helper block as parsed from uper_functions.py and the model CGen/Helpers.v disagree on history %s '
+                '(buffer of %d bytes): %s' % ([c09_helpers.op_text(o, k == 'E') for o in ops], size, CODES.get(code, code)),
+                dict(kind='helpers-ir', side=k, size=size, init=init.hex(),
+                     ops=[c09_helpers.op_text(o, k == 'E') for o in ops], code=code))
+
+
+# --------------------------------------------------------------------------
+# struct values
+
+_SEL = re.compile(r'\.(\w+)|->(\w+)|\[(\d+)\]')
+
+
+def parse_lvalue(expr):
+    """'p->a.b[3].c' -> ['a', 'b', 3, 'c']"""
+    assert expr.startswith('p'), expr
+    out = []
+    pos = 1
+    while pos < len(expr):
+        m = _SEL.match(expr, pos)
+        if not m:
+            raise ValueError('lvalue %r' % expr)
+        if m.group(3) is not None:
+            out.append(int(m.group(3)))
+        else:
+            out.append(m.group(1) or m.group(2))
+        pos = m.end()
+    return out
+
+
+class Sk(object):
+    """Mutable skeleton of a C object: leaf None (undefined) / int, list, dict."""
+
+
+def skeleton(tr, t):
+    k = t[0]
+    if k == 'int':
+        return None
+    if k == 'arr':
+        return [skeleton(tr, t[1]) for _ in range(t[2])]
+    if k == 'struct':
+        return dict((n, skeleton(tr, ft)) for n, ft in t[1])
+    raise cparse.CParseError('skeleton of %r' % (k,))
+
+
+def count_leaves(t):
+    k = t[0]
+    if k == 'int':
+        return 1
+    if k == 'arr':
+        return t[2] * count_leaves(t[1])
+    if k == 'struct':
+        return sum(count_leaves(ft) for _, ft in t[1])
+    return 1
+
+
+def sk_set(sk, path, v):
+    for s in path[:-1]:
+        sk = sk[s]
+    sk[path[-1]] = v
+
+
+def sk_coq(sk):
+    if sk is None:
+        return 'VUndef'
+    if isinstance(sk, int):
+        return '(VInt (%d))' % sk
+    if isinstance(sk, list):
+        # run-length: long undefined tails are frequent
+        return '(VArr [%s])' % '; '.join(sk_coq(x) for x in sk)
+    return '(VRec [%s])' % '; '.join('("%s", %s)' % (n, sk_coq(v)) for n, v in sk.items())
+
+
+def struct_value(tr, walker, spec, m, n, v):
+    """(skeleton text, filled-value text) of the struct of type (m, n) for value v."""
+    sname = walker.struct_of[(m, n)]
+    t = tr.ty(cparse.CType('struct ' + sname))
+    sk = skeleton(tr, t)
+    empty = sk_coq(sk)
+    sets = []
+    walker.fill(spec.index[(m, n)], walker.top_slot(m, n), v, sets, n)
+    for expr, num in sets:
+        sk_set(sk, parse_lvalue(expr), num)
+    return empty, sk_coq(sk), t
+
+
+PUBLIC_ENC = re.compile(
+    r'^\w+ \w+\(uint8_t\* p0, size_t p1, const struct (\w+)\* p2\) \{ struct encoder_t l0; '
+    r'encoder_init\(\(&l0\), p0, p1\); (\w+)_encode_inner\(\(&l0\), p2\); return encoder_get_result\(\(&l0\)\); \}$')
+PUBLIC_DEC = re.compile(
+    r'^\w+ \w+\(struct (\w+)\* p0, const uint8_t\* p1, size_t p2\) \{ struct decoder_t l0; '
+    r'decoder_init\(\(&l0\), p1, p2\); (\w+)_decode_inner\(\(&l0\), p0\); return decoder_get_result\(\(&l0\)\); \}$')
+
+
+def check_public(src_unit, prefix):
+    """The public functions have exactly the shape the Coq runners execute."""
+    for suffix, rx in (('_encode', PUBLIC_ENC), ('_decode', PUBLIC_DEC)):
+        f = src_unit.functions.get(prefix + suffix)
+        if f is None:
+            raise cparse.CParseError('public function %s%s missing' % (prefix, suffix))
+        norm = re.sub(r'\s+', ' ', cparse.show_function(cparse.alpha_function(f)))
+        mm = rx.match(norm)
+        if not mm or mm.group(2) != prefix or mm.group(1) != prefix + '_t':
+            raise cparse.CParseError('public function %s%s has an unexpected body: %s' % (prefix, suffix, norm[:300]))
+
+
+def unit_cases(ctx, p, max_leaves=600, max_cases=6, max_fuzz=16):
+    """Coq text evaluating one prepared Spine A unit in the IR, and the list of
+    what each result position means."""
+    tr = ctoir.Translator([p.header, p.source])
+    prog = tr.program()
+    walker = c09_driver.TreeWalker(p.spec, p.header)
+    meta = []
+    lines = []
+    for (m, n) in p.types:
+        check_public(p.source, walker.struct_of[(m, n)][:-2])
+    done = 0
+    sk_defs = {}
+    defs = []
+    fuzz_results = getattr(p, 'fuzz_c_results', {})
+    by_type_done = {}
+    for ci, ((m, n, v), b) in enumerate(zip(p.cases, p.pybytes)):
+        if done >= max_cases or len(b) > 400 or by_type_done.get((m, n), 0) >= 3:
+            continue
+        sname = walker.struct_of[(m, n)]
+        t = tr.ty(cparse.CType('struct ' + sname))
+        if count_leaves(t) > max_leaves:
+            continue
+        empty, full, _ = struct_value(tr, walker, p.spec, m, n, v)
+        prefix = sname[:-2]
+        if prefix not in sk_defs:
+            sk_defs[prefix] = 'Definition sk_%s : val := %s.' % (prefix, empty)
+        defs.append('Definition v_%d : val := %s.\nDefinition b_%d : list Z := %s.' % (ci, full, ci, to_coq(list(b))))
+        lines.append('check_encode prog fuel "%s_encode_inner" v_%d b_%d' % (prefix, ci, ci))
+        meta.append(('encode', ci, None))
+        for sz in sorted(set([0, len(b) - 1, len(b) // 2])):
+            if 0 <= sz < len(b):
+                lines.append('check_encode_small prog fuel "%s_encode_inner" v_%d %d' % (prefix, ci, sz))
+                meta.append(('small', ci, sz))
+        lines.append('check_decode prog fuel "%s_decode_inner" sk_%s v_%d b_%d' % (prefix, prefix, ci, ci))
+        meta.append(('decode', ci, None))
+        done += 1
+        by_type_done[(m, n)] = by_type_done.get((m, n), 0) + 1
+    nf = 0
+    results_lines = []
+    for fi, (ti, data) in enumerate(p.fuzz):
+        if nf >= max_fuzz or len(data) > 300 or fi not in fuzz_results:
+            continue
+        m, n = p.types[ti]
+        sname = walker.struct_of[(m, n)]
+        t = tr.ty(cparse.CType('struct ' + sname))
+        if count_leaves(t) > max_leaves:
+            continue
+        prefix = sname[:-2]
+        if prefix not in sk_defs:
+            sk_defs[prefix] = 'Definition sk_%s : val := %s.' % (prefix, sk_coq(skeleton(tr, t)))
+        results_lines.append('decode_result prog fuel "%s_decode_inner" sk_%s %s' % (prefix, prefix, to_coq(list(data))))
+        meta.append(('fuzz', fi, fuzz_results[fi]))
+        nf += 1
+    body = '''
+Open Scope string_scope.
+Definition prog : program := %s.
+Definition fuel := %s.
+Definition decode_result prog fuel inner sk src : Z :=
+  match run_decode prog fuel inner sk src (Z.of_nat (length src)) with
+  | ROk (r, _) => r
+  | RFail f => 1000000 + fail_code f
+  end.
+%s
+%s
+Eval vm_compute in [%s].
+''' % (prog, FUEL, '\n'.join(sk_defs.values()), '\n'.join(defs),
+       ';\n  '.join(lines + results_lines) if (lines or results_lines) else '0')
+    return body, meta
+
+
+def run_units(ctx, preps, n_units):
+    done = 0
+    jobs = []
+    for p in preps:
+        if done >= n_units:
+            break
+        if p.unit is None or not getattr(p, 'cases', None) or p.unit.result is None or 'fuzz' not in p.unit.result:
+            continue
+        if p.unit.result.get('gcc_rc') != 0:
+            continue
+        # result codes of the compiled decoder per fuzz input
+        rc, out, err = p.unit.result['fuzz']
+        res = {}
+        for idx, line in enumerate(l for l in out.splitlines() if l.startswith('F ')):
+            head = line.split('|')[0].split()
+            if len(head) >= 4:
+                res[idx] = int(head[3])
+        p.fuzz_c_results = res
+        try:
+            body, meta = unit_cases(ctx, p)
+        except cparse.CParseError as e:
+            c09_cc.limited_violation(ctx, 'ir-dialect', 'generated C cannot be translated to the IR: %s' % e,
+                                     dict(kind='ir-dialect', spec=p.spec.to_json(), text=p.text, error=str(e)))
+            continue
+        except c09_driver.LayoutError:
+            continue
+        if not meta:
+            continue
+        done += 1
+        jobs.append((p, body, meta))
+    if not jobs:
+        return
+    # the first evaluation builds CGen/Ir.vo if needed; the others run in parallel coqc processes
+    from concurrent.futures import ThreadPoolExecutor
+
+    def ev(i):
+        p, body, meta = jobs[i]
+        try:
+            return ctx.coq_eval('ir_unit_%d' % i, ['Base.Prelude', 'CGen.Ir'], body, timeout=600)
+        except RuntimeError as e:
+            return e
+    first = ev(0)
+    with ThreadPoolExecutor(max_workers=8) as ex:
+        rest = list(ex.map(ev, range(1, len(jobs))))
+    for (p, body, meta), r in zip(jobs, [first] + rest):
+        if isinstance(r, RuntimeError):
+            c09_cc.limited_violation(ctx, 'ir-coq', 'the IR program of a generated source is rejected by Coq: %s' % str(r)[-400:],
+                                     dict(kind='ir-coq', spec=p.spec.to_json(), text=p.text))
+            continue
+        (codes,) = r
+        for (kind, idx, extra), code in zip(meta, codes):
+            ctx.evaluations += 1
+            ctx.count('ir:' + kind)
+            if kind == 'fuzz':
+                ti, data = p.fuzz[idx]
+                m, n = p.types[ti]
+                if code >= 1000000:
+                    c09_cc.limited_violation(
+                        ctx, 'ir-fuzz', 'IR execution of the decoder of %s on input %s: %s' % (
+                            n, data.hex()[:80], CODES.get(code - 1000000, code)),
+                        dict(kind='ir-fuzz', spec=p.spec.to_json(), text=p.text, module=m, type=n, input=data.hex(), code=code))
+                elif code != extra:
+                    c09_cc.limited_violation(
+                        ctx, 'ir-vs-binary', 'IR semantics and compiled decoder of %s disagree on input %s: IR returns %d, '
+                        'binary %d' % (n, data.hex()[:80], code, extra),
+                        dict(kind='ir-fuzz', spec=p.spec.to_json(), text=p.text, module=m, type=n, input=data.hex(),
+                             ir=code, binary=extra))
+                continue
+            if code != 0:
+                m, n, v = p.cases[idx]
+                c09_cc.limited_violation(
+                    ctx, 'ir-' + kind,
+                    'IR execution of the generated %s of %s%s: %s' % (
+                        'encoder' if kind != 'decode' else 'decoder', n,
+                        ' into %d bytes' % extra if kind == 'small' else '', CODES.get(code, code)),
+                    A._case_replay(p, idx, 'ir-' + kind, code=code))
+    ctx.count('ir:units', done)
+
+
+def run(ctx, active, preps=None):
+    helpers_vs_model(ctx, 60 if ctx.quick else 600)
+    if preps:
+        run_units(ctx, preps, 8 if ctx.quick else 80)
